@@ -77,7 +77,9 @@ def work(arg):
     seed, do_embed, do_parity = arg
     out = {"seed": seed, "viol": [], "inconclusive": None, "discard": False, "runs": 0}
     prog, g = G.generate(seed)
-    r = P.render(prog)
+    # one program in five is written in a random layout (compact spellings, comments, continuation lines, escapes)
+    r = P.render(prog, P.Layout.random(seed) if seed % 5 == 2 else None)
+    out["layout"] = "random" if seed % 5 == 2 else "canonical"
     try:
         res = M.run(prog, r)
     except M.ModelLimit as e:
@@ -144,6 +146,8 @@ def work(arg):
 
 
 def run(rep, tier):
+    from .. import scale
+    scale.run(rep, PROP, tier)          # size ladders (seedverif/scale.py): the entries that concern this property
     n = 12000 if tier == "quick" else 200000
     n_embed_every = 4
     base = core.rng_for(PROP).randrange(1 << 40)
@@ -167,6 +171,7 @@ def run(rep, tier):
             rep.distinct.add(res["sha"])
         rep.tally("outcome", "ok" if res.get("ok") else "error:" + str(res.get("kind")))
         rep.tally("call_depth", str(min(res.get("depth", 0), 10)))
+        rep.tally("layout", res.get("layout", "?"))
         rep.tally("program_size", str(res.get("size")))
         for f in res.get("features", []):
             rep.tally("features", f)
